@@ -1,6 +1,175 @@
 import PdeVerif.Json
+import PdeVerif.Model.Heap
+/-
+Driver of C15: replays an operation history on the heap model (`PdeVerif.Heap.step`, the
+definitions the theorems of `Props/C15.lean` are about) at exact complex-rational values and
+reports, after every step, which handles exist, where each of them looks (buffer, offset,
+length, dtype), what is read through it, and the complete aliasing relation.
+-/
 namespace PdeVerif.Drv.C15
-open Lean PdeVerif
+open Lean PdeVerif PdeVerif.Heap
 
-def handlers : List (String × Handler) := []
+/-- exact complex rational numbers (values of every numpy dtype the harness uses) -/
+structure CQ where
+  re : Rat
+  im : Rat
+deriving DecidableEq, Inhabited
+
+instance : Add CQ := ⟨fun a b => ⟨a.re + b.re, a.im + b.im⟩⟩
+instance : Sub CQ := ⟨fun a b => ⟨a.re - b.re, a.im - b.im⟩⟩
+instance : Neg CQ := ⟨fun a => ⟨-a.re, -a.im⟩⟩
+instance : Mul CQ := ⟨fun a b => ⟨a.re * b.re - a.im * b.im, a.re * b.im + a.im * b.re⟩⟩
+instance : Div CQ := ⟨fun a b =>
+  let d := b.re * b.re + b.im * b.im
+  ⟨(a.re * b.re + a.im * b.im) / d, (a.im * b.re - a.re * b.im) / d⟩⟩
+instance : NatCast CQ := ⟨fun n => ⟨(n : Rat), 0⟩⟩
+
+def getCQ (j : Json) : Except String CQ :=
+  match j with
+  | .arr a =>
+    match a.toList with
+    | [r, i] => do pure ⟨← getQ r, ← getQ i⟩
+    | _ => .error s!"bad complex {j.compress}"
+  | _ => do pure ⟨← getQ j, 0⟩
+
+def jRat (q : Rat) : Json := if q.den = 1 then toJson q.num else Json.str (showQ q)
+def jCQ (z : CQ) : Json := if z.im = 0 then jRat z.re else Json.arr #[jRat z.re, jRat z.im]
+def jCell : Option CQ → Json
+  | none => Json.null
+  | some z => jCQ z
+
+def getOptCQ (j : Json) : Except String (Option CQ) :=
+  match j with
+  | .null => pure none
+  | _ => do pure (some (← getCQ j))
+
+def parseDT (s : String) : Except String DType :=
+  match s with
+  | "i64" => pure .i64 | "f32" => pure .f32 | "f64" => pure .f64
+  | "c64" => pure .c64 | "c128" => pure .c128
+  | _ => .error s!"bad dtype {s}"
+
+def showDT : DType → String
+  | .i64 => "i64" | .f32 => "f32" | .f64 => "f64" | .c64 => "c64" | .c128 => "c128"
+
+def optDT (j : Json) (k : String) : Except String (Option DType) :=
+  match fldOpt j k with
+  | some (.str s) => do pure (some (← parseDT s))
+  | _ => pure none
+
+def parseCls (s : String) : Except String Cls :=
+  match s with
+  | "scalar" => pure .scalar | "vector" => pure .vector | "tensor" => pure .tensor
+  | "coll" => pure .coll | "raw" => pure .raw
+  | _ => .error s!"bad class {s}"
+
+def showCls : Cls → String
+  | .scalar => "scalar" | .vector => "vector" | .tensor => "tensor" | .coll => "coll" | .raw => "raw"
+
+def showErr : Err → String
+  | .badHandle => "badHandle" | .badArg => "badArg" | .empty => "empty"
+  | .gridMismatch => "gridMismatch" | .nested => "nested" | .classMismatch => "classMismatch"
+  | .notScalar => "notScalar" | .broadcast => "broadcast" | .cast => "cast"
+
+def parseBinOp (j : Json) : Except String BinOp := do
+  match (← fldS j "bop") with
+  | "add" => pure .add | "sub" => pure .sub | "rsub" => pure .rsub | "mul" => pure .mul
+  | "div" => pure .div | "rdiv" => pure .rdiv
+  | "pow" => do pure (.pow (← fldN j "n"))
+  | s => .error s!"bad binop {s}"
+
+def parseOperand (j : Json) : Except String (Operand CQ) :=
+  match fldOpt j "b" with
+  | some (.num n) => if n.exponent = 0 && n.mantissa ≥ 0 then pure (.obj n.mantissa.toNat)
+                     else .error "bad operand handle"
+  | _ => do pure (.num (← getCQ (← fld j "v")) (← fldN j "k"))
+
+def fldCQs (j : Json) (k : String) : Except String (List CQ) := do getL getCQ (← fld j k)
+
+def parseGrid (j : Json) : Except String Grid := do
+  let m ← fldS j "mask"
+  pure { mask := m.toList.map (· == '1'), dim := ← fldN j "dim" }
+
+def parseOp (j : Json) : Except String (Op CQ) := do
+  match (← fldS j "op") with
+  | "mkField" =>
+    let init : Init CQ ← (do
+      match (← fldS j "init") with
+      | "zeros" => pure Init.zeros
+      | "valid" => do pure (Init.valid (← fldCQs j "vals"))
+      | "full" => do pure (Init.full (← fldCQs j "vals"))
+      | s => .error s!"bad init {s}")
+    pure (.mkField (← parseCls (← fldS j "cls")) (← fldN j "grid") (← optDT j "dt")
+      (← fldB j "cplx") init)
+  | "writeData" => do pure (.writeData (← fldN j "h") (← fldCQs j "vals"))
+  | "writeFull" => do pure (.writeFull (← fldN j "h") (← fldCQs j "vals"))
+  | "writeCell" => do pure (.writeCell (← fldN j "h") (← fldN j "p") (← getCQ (← fld j "v")))
+  | "setGhosts" => do pure (.setGhosts (← fldN j "h") (← getL getOptCQ (← fld j "vals")))
+  | "component" => do pure (.component (← fldN j "h") (← fldN j "c"))
+  | "mkColl" => do pure (.mkColl (← fldNs j "hs") (← fldB j "copy") (← optDT j "dt"))
+  | "slice" => do pure (.slice (← fldN j "c") (← fldNs j "idx"))
+  | "append" => do pure (.append (← fldN j "c") (← fldNs j "hs"))
+  | "copy" => do pure (.copy (← fldN j "h") (← optDT j "dt"))
+  | "neg" => do pure (.neg (← fldN j "h"))
+  | "deepcopy" => do pure (.deepcopy (← fldN j "h"))
+  | "binop" => do pure (.binop (← parseBinOp j) (← fldN j "a") (← parseOperand j))
+  | "inplace" => do pure (.inplace (← parseBinOp j) (← fldN j "a") (← parseOperand j))
+  | "storeFrame" => do pure (.storeFrame (← fldN j "h") (← optDT j "into"))
+  | "loadFrame" => do pure (.loadFrame (← fldN j "t") (← fldN j "f"))
+  | s => .error s!"unknown op {s}"
+
+/-- everything observable about one handle -/
+structure Snap where
+  obj : Obj
+  dt : DType
+  vals : List (Option CQ)
+
+def snapEq (a b : Snap) : Bool :=
+  a.obj.view == b.obj.view && a.dt == b.dt && a.obj.members == b.obj.members && a.vals == b.vals
+
+def snapshot (s : State CQ) : List Snap :=
+  s.objs.map (fun o => ⟨o, s.store.dtOf o.view.buf, s.store.readView o.view⟩)
+
+def jSnap (i : Nat) (x : Snap) : Json :=
+  Json.mkObj [("id", toJson i), ("cls", Json.str (showCls x.obj.cls)), ("grid", toJson x.obj.grid),
+    ("ncomp", toJson x.obj.ncomp), ("buf", toJson x.obj.view.buf), ("off", toJson x.obj.view.off),
+    ("len", toJson x.obj.view.len), ("dt", Json.str (showDT x.dt)),
+    ("members", toJson x.obj.members), ("vals", Json.arr (x.vals.map jCell).toArray)]
+
+/-- snapshots that are new or differ from the previous step -/
+def changed (old new : List Snap) : List Json :=
+  (new.zipIdx).filterMap (fun (x, i) =>
+    match old[i]? with
+    | some y => if snapEq x y then none else some (jSnap i x)
+    | none => some (jSnap i x))
+
+/-- the complete aliasing relation: pairs `i < j` whose views overlap, with `off j - off i` -/
+def aliasPairs (s : State CQ) : List Json :=
+  let os := s.objs.zipIdx
+  os.flatMap (fun (a, i) =>
+    os.filterMap (fun (b, j) =>
+      if i < j && aliases s i j then
+        some (Json.arr #[toJson i, toJson j, toJson ((b.view.off : Int) - (a.view.off : Int))])
+      else none))
+
+def replay (G : List Grid) : State CQ → List Snap → List (Op CQ) → List Json
+  | _, _, [] => []
+  | s, prev, op :: ops =>
+    match step G s op with
+    | .error e =>
+      Json.mkObj [("err", Json.str (showErr e)), ("n", toJson s.objs.length),
+        ("ch", Json.arr #[]), ("al", Json.arr (aliasPairs s).toArray)] :: replay G s prev ops
+    | .ok s' =>
+      let snap := snapshot s'
+      Json.mkObj [("err", Json.null), ("n", toJson s'.objs.length),
+        ("ch", Json.arr (changed prev snap).toArray), ("al", Json.arr (aliasPairs s').toArray)]
+        :: replay G s' snap ops
+
+/-- {"grids":[{"mask":"0110","dim":1},..],"ops":[..]} -> one record per operation -/
+def runH (j : Json) : Except String Json := do
+  let gs ← getL parseGrid (← fld j "grids")
+  let ops ← getL parseOp (← fld j "ops")
+  pure (Json.arr (replay gs {} [] ops).toArray)
+
+def handlers : List (String × Handler) := [("c15.run", runH)]
 end PdeVerif.Drv.C15
